@@ -27,6 +27,8 @@ type srvRec struct {
 	sendSt  string   // first failing send status
 	sentEnd bool     // SendEnd succeeded
 
+	lostWake int // a message was pending although the ReceiveWait channel was not notified
+
 	retSet   bool // the handler reached its return (or panic)
 	retCode  string
 	retMsg   string
@@ -54,6 +56,7 @@ type cliRec struct {
 	sendSt   string
 	endSt    string // status of SendEnd ("" = not called)
 
+	lostWake  int  // a message was pending although the ReceiveWait channel was not notified
 	hung      bool // the watchdog had to cancel the call
 	cancelled bool // the planned cancel fired
 	finished  bool
@@ -66,8 +69,8 @@ type world struct {
 	srv   map[uint64]*srvRec
 	cli   map[uint64]*cliRec
 
-	cl          rpc.Client
-	callTimeout time.Duration
+	cls      []rpc.Client // calls are spread over the clients by call id
+	timeouts timeouts
 
 	active  atomic.Int32 // handlers running
 	started atomic.Int32 // calls started by the client
@@ -90,6 +93,77 @@ func newWorld(plans []*plan) *world {
 		w.cli[p.id] = &cliRec{}
 	}
 	return w
+}
+
+// activity counts the events of the process (messages sent and received, calls and handlers
+// finished). A blocked call is told from a slow machine by it: a call is hung when it is still
+// pending after the soft timeout while nothing at all has happened for the quiet period, or when
+// it is pending after the hard timeout.
+var activity atomic.Int64
+
+func tick() { activity.Add(1) }
+
+type timeouts struct {
+	soft, quiet, hard time.Duration
+}
+
+// watchStep is the period of the watchdogs. All their limits are counted in observed steps, not in
+// wall time: a process that was frozen (a loaded or paused machine) sees a single late tick, which
+// must not look like a long quiet period.
+const watchStep = 50 * time.Millisecond
+
+func steps(d time.Duration) int { return int(d / watchStep) }
+
+// watchCall starts the watchdog of one call; hung is called (once) when the call is considered
+// hung. The returned function stops the watchdog.
+func watchCall(t timeouts, hung func()) (stop func()) {
+	done := make(chan struct{})
+	go func() {
+		last := activity.Load()
+		age, idle := 0, 0
+		tk := time.NewTicker(watchStep)
+		defer tk.Stop()
+		for {
+			select {
+			case <-done:
+				return
+			case <-tk.C:
+				age++
+				if v := activity.Load(); v != last {
+					last, idle = v, 0
+				} else {
+					idle++
+				}
+				if age > steps(t.hard) || (age > steps(t.soft) && idle > steps(t.quiet)) {
+					hung()
+					return
+				}
+			}
+		}
+	}()
+	return func() { close(done) }
+}
+
+// waitQuiet waits until cond holds; it gives up when at least min has passed and nothing has
+// happened for the quiet period, or after max (all counted in steps of a millisecond).
+func waitQuiet(min, quiet, max time.Duration, cond func() bool) bool {
+	last := activity.Load()
+	age, idle := 0, 0
+	for {
+		if cond() {
+			return true
+		}
+		if v := activity.Load(); v != last {
+			last, idle = v, 0
+		} else {
+			idle++
+		}
+		age++
+		if age > int(max/time.Millisecond) || (age > int(min/time.Millisecond) && idle > int(quiet/time.Millisecond)) {
+			return false
+		}
+		time.Sleep(time.Millisecond)
+	}
 }
 
 func (w *world) note(s string) {
@@ -174,7 +248,9 @@ func (w *world) handle(ctx rpc.Context, ch rpc.ServerChannel) (res ref.R[[]byte]
 		rec.mu.Lock()
 		rec.done = true
 		rec.mu.Unlock()
+		tick()
 	}()
+	tick()
 
 	sleepUs(p.preDelayUs)
 	if p.streaming() {
@@ -233,7 +309,17 @@ func (w *world) handleStreams(ctx rpc.Context, ch rpc.ServerChannel, p *plan, re
 			limit = p.cliMsgs + 2 // surplus messages are recorded and rejected by the check
 		}
 		for i := 0; i < limit; i++ {
-			b, st := ch.Receive(ctx)
+			var b []byte
+			var st status.Status
+			if p.srvAsync {
+				b, st = receivePolling(ctx, ch, func() {
+					rec.mu.Lock()
+					rec.lostWake++
+					rec.mu.Unlock()
+				})
+			} else {
+				b, st = ch.Receive(ctx)
+			}
 			if !st.OK() {
 				rec.mu.Lock()
 				rec.recvSt = stcode(st)
@@ -241,10 +327,12 @@ func (w *world) handleStreams(ctx rpc.Context, ch rpc.ServerChannel, p *plan, re
 				rec.mu.Unlock()
 				return
 			}
+			sleepUs(p.holdUs) // the message stays valid until the next Receive
 			c := append([]byte{}, b...)
 			rec.mu.Lock()
 			rec.recv = append(rec.recv, c)
 			rec.mu.Unlock()
+			tick()
 		}
 	}
 	send := func() {
@@ -260,6 +348,7 @@ func (w *world) handleStreams(ctx rpc.Context, ch rpc.ServerChannel, p *plan, re
 			rec.mu.Lock()
 			rec.sent++
 			rec.mu.Unlock()
+			tick()
 		}
 		if p.srvSendEnd {
 			st := ch.SendEnd(ctx)
@@ -295,21 +384,71 @@ func (w *world) handleStreams(ctx rpc.Context, ch rpc.ServerChannel, p *plan, re
 	}
 }
 
+// receiver is the receiving side of a client or server rpc channel.
+type receiver interface {
+	ReceiveAsync(ctx async.Context) ([]byte, bool, status.Status)
+	ReceiveWait() <-chan struct{}
+}
+
+// probeInterval is how long receivePolling waits for a notification before it polls again.
+const probeInterval = time.Second
+
+// receivePolling is Receive built from the public polling methods in the documented order (take
+// the ReceiveWait channel, poll with ReceiveAsync, then wait). When no notification comes for
+// probeInterval it polls again: a message found then was pending without a notification (a blocked
+// Receive would still sleep), which is reported through lost.
+func receivePolling(ctx async.Context, ch receiver, lost func()) ([]byte, status.Status) {
+	for {
+		wait := ch.ReceiveWait()
+		b, ok, st := ch.ReceiveAsync(ctx)
+		if !st.OK() || ok {
+			return b, st
+		}
+	waiting:
+		for {
+			t := time.NewTimer(probeInterval)
+			select {
+			case <-wait:
+				t.Stop()
+				break waiting
+			case <-ctx.Wait():
+				t.Stop()
+				return nil, ctx.Status()
+			case <-t.C:
+				b, ok, st := ch.ReceiveAsync(ctx)
+				if !st.OK() || ok {
+					select {
+					case <-wait: // notified in the meantime: no finding
+					default:
+						lost()
+					}
+					return b, st
+				}
+			}
+		}
+	}
+}
+
 // client side
 
 func buildRequest(p *plan) (prpc.Request, error) {
 	w := prpc.NewRequestWriter()
 	calls := w.Calls()
 	for j := 0; j < p.nCalls; j++ {
+		// The writers are stack based: the method must be written before the input is opened.
 		call := calls.Add()
-		input := call.Input()
-		if j < p.nCalls-1 {
-			call.Method(fmt.Sprintf("sub%d", j))
-			input.Field(1).Uint64(uint64(j))
-		} else {
+		last := j == p.nCalls-1
+		if last {
 			call.Method(kindNames[p.kind])
+		} else {
+			call.Method(fmt.Sprintf("sub%d", j))
+		}
+		input := call.Input()
+		if last {
 			input.Field(1).Uint64(p.id)
 			input.Field(2).Bytes(p.enc)
+		} else {
+			input.Field(1).Uint64(uint64(j))
 		}
 		if err := input.End(); err != nil {
 			return prpc.Request{}, err
@@ -327,6 +466,7 @@ func buildRequest(p *plan) (prpc.Request, error) {
 // doCall runs one call and records what the caller observes.
 func (w *world) doCall(p *plan) {
 	rec := w.cli[p.id]
+	cl := w.cls[int(p.id%uint64(len(w.cls)))]
 	defer func() {
 		if e := recover(); e != nil {
 			rec.mu.Lock()
@@ -336,6 +476,7 @@ func (w *world) doCall(p *plan) {
 		rec.mu.Lock()
 		rec.finished = true
 		rec.mu.Unlock()
+		tick()
 	}()
 
 	req, err := buildRequest(p)
@@ -344,7 +485,7 @@ func (w *world) doCall(p *plan) {
 	}
 	ctx := async.NewContext()
 	defer ctx.Free()
-	watchdog := time.AfterFunc(w.callTimeout, func() {
+	stopWatch := watchCall(w.timeouts, func() {
 		rec.mu.Lock()
 		hung := !rec.finished
 		rec.hung = rec.hung || hung
@@ -353,7 +494,7 @@ func (w *world) doCall(p *plan) {
 			ctx.Cancel()
 		}
 	})
-	defer watchdog.Stop()
+	defer stopWatch()
 	if p.cliBehav == bCancel {
 		t := time.AfterFunc(time.Duration(p.cancelUs)*time.Microsecond, func() {
 			rec.mu.Lock()
@@ -386,24 +527,25 @@ func (w *world) doCall(p *plan) {
 
 	switch p.kind {
 	case kUnary:
-		v, st := w.cl.Request(ctx, req)
+		v, st := cl.Request(ctx, req)
 		var b []byte
 		isNil := true
 		if v != nil {
 			raw := v.Unwrap()
 			isNil = raw == nil
+			sleepUs(p.holdUs) // the result stays valid until it is released
 			b = append([]byte{}, raw...)
 			v.Release()
 		}
 		setResp(b, isNil, st)
 		return
 	case kOneway:
-		st := w.cl.RequestOneway(ctx, req)
+		st := cl.RequestOneway(ctx, req)
 		setReq(st)
 		return
 	}
 
-	ch, st := w.cl.Channel(ctx, req)
+	ch, st := cl.Channel(ctx, req)
 	setReq(st)
 	if !st.OK() {
 		return
@@ -423,6 +565,7 @@ func (w *world) doCall(p *plan) {
 			rec.mu.Lock()
 			rec.sentOK++
 			rec.mu.Unlock()
+			tick()
 			sleepUs(p.cliDelayUs)
 		}
 		if end {
@@ -439,11 +582,18 @@ func (w *world) doCall(p *plan) {
 			rec.mu.Unlock()
 		}
 		add := func(b []byte) bool {
-			c := append([]byte{}, b...)
+			var c []byte
+			if p.cliBehav != bFreeRace {
+				sleepUs(p.holdUs) // the message stays valid until the next Receive
+				c = append([]byte{}, b...)
+			}
+			// bFreeRace: the channel can be freed at any moment, which invalidates the message;
+			// only the number of messages is recorded.
 			rec.mu.Lock()
 			rec.recv = append(rec.recv, c)
 			n := len(rec.recv)
 			rec.mu.Unlock()
+			tick()
 			return n <= p.srvMsgs+3
 		}
 		for {
@@ -458,28 +608,23 @@ func (w *world) doCall(p *plan) {
 				}
 				continue
 			}
-			wait := ch.ReceiveWait()
-			b, ok, st := ch.ReceiveAsync(ctx)
-			switch {
-			case !st.OK():
+			b, st := receivePolling(ctx, ch, func() {
+				rec.mu.Lock()
+				rec.lostWake++
+				rec.mu.Unlock()
+			})
+			if !st.OK() {
 				term(st)
 				return
-			case ok:
-				if !add(b) {
-					return
-				}
-				continue
 			}
-			select {
-			case <-wait:
-			case <-ctx.Wait():
-				term(ctx.Status())
+			if !add(b) {
 				return
 			}
 		}
 	}
 	resp := func() {
 		v, st := ch.Response(ctx)
+		sleepUs(p.holdUs) // the result stays valid until the channel is freed
 		setResp(append([]byte{}, v...), v == nil, st)
 	}
 
@@ -489,6 +634,27 @@ func (w *world) doCall(p *plan) {
 		return
 	case bRespOnly:
 		send(p.cliMsgs, p.cliSendEnd)
+		resp()
+		return
+	case bFreeRace:
+		var wg sync.WaitGroup
+		wg.Add(2)
+		guard := func(f func()) {
+			defer wg.Done()
+			defer func() {
+				if e := recover(); e != nil {
+					rec.mu.Lock()
+					rec.panicked = fmt.Sprint(e)
+					rec.mu.Unlock()
+				}
+			}()
+			f()
+		}
+		go guard(func() { send(p.cliMsgs, p.cliSendEnd) })
+		go guard(recv)
+		sleepUs(p.freeUs)
+		ch.Free()
+		wg.Wait()
 		resp()
 		return
 	}
